@@ -471,6 +471,8 @@ class Grid:
 
         metric_vars = None
         array_dims = set(array.dims)
+        # a single axis may be given as a plain string
+        axes = _maybe_promote_str_to_list(axes)
 
         # Will raise a Value Error if array doesn't have a dimension corresponding to metric axes specified
         # See _get_dims_from_axis
